@@ -247,10 +247,11 @@ func (rt *runtime) cmplEvaluateNodeCallExpression(node *nodeCallExpression, with
 func (rt *runtime) cmplEvaluateNodeConditionalExpression(node *nodeConditionalExpression) Value {
 	test := rt.cmplEvaluateNodeExpression(node.test)
 	testValue := test.resolve()
+	// The result is a value, never a reference: '(c ? o.m : f)()' calls with this = undefined (11.12)
 	if testValue.bool() {
-		return rt.cmplEvaluateNodeExpression(node.consequent)
+		return rt.cmplEvaluateNodeExpression(node.consequent).resolve()
 	}
-	return rt.cmplEvaluateNodeExpression(node.alternate)
+	return rt.cmplEvaluateNodeExpression(node.alternate).resolve()
 }
 
 func (rt *runtime) cmplEvaluateNodeDotExpression(node *nodeDotExpression) Value {
